@@ -114,10 +114,10 @@ def murmur32(src):
         'if (data == NULL || nbytes == 0) return 0;',
         'const uint32_t c1 = ', ('c1', NUM), '; const uint32_t c2 = ', ('c2', NUM), ';',
         'const int nblocks = nbytes / ', ('bs', r'\d+'), ';',
-        'const uint32_t *blocks = (const uint32_t *) (data);',
+        'const uint8_t *blocks = (const uint8_t *) (data);',          # the words are loaded with memcpy: the key may start at any address
         'const uint8_t *tail = (const uint8_t *) (data + (nblocks * ', ('bs2', r'\d+'), '));',
         'uint32_t h = 0; int i; uint32_t k;',
-        'for (i = 0; i < nblocks; i++) { k = blocks[i];',
+        'for (i = 0; i < nblocks; i++) { memcpy(&k, blocks + i * 4, sizeof(k));',
         'k *= c1; k = (k << ', R('r1'), ') | (k >> ', E('r1c'), '); k *= c2;',
         'h ^= k; h = (h << ', R('r2'), ') | (h >> ', E('r2c'), '); h = (h * ', R('m'), ') + ', ('n', NUM), '; }',
         'k = 0; switch (nbytes & ', ('mask', r'\d+'), ') {',
@@ -151,10 +151,10 @@ def murmur128(src):
     m = expect_norm(head, [
         'if (data == NULL || nbytes == 0) return false;',
         'const uint64_t c1 = ', ('c1', NUM), '; const uint64_t c2 = ', ('c2', NUM), ';',
-        'const int nblocks = nbytes / 16; const uint64_t *blocks = (const uint64_t *) (data);',
+        'const int nblocks = nbytes / 16; const uint8_t *blocks = (const uint8_t *) (data);',
         'const uint8_t *tail = (const uint8_t *) (data + (nblocks * 16));',
         'uint64_t h1 = 0; uint64_t h2 = 0; int i; uint64_t k1, k2;',
-        'for (i = 0; i < nblocks; i++) { k1 = blocks[i * 2 + 0]; k2 = blocks[i * 2 + 1];',
+        'for (i = 0; i < nblocks; i++) { memcpy(&k1, blocks + i * 16, sizeof(k1)); memcpy(&k2, blocks + i * 16 + 8, sizeof(k2));',
         'k1 *= c1; k1 = (k1 << ', R('ka'), ') | (k1 >> ', E('kac'), '); k1 *= c2; h1 ^= k1;',
         'h1 = (h1 << ', R('ha'), ') | (h1 >> ', E('hac'), '); h1 += h2; h1 = h1 * ', R('m1'), ' + ', ('n1', NUM), ';',
         'k2 *= c2; k2 = (k2 << ', R('kb'), ') | (k2 >> ', E('kbc'), '); k2 *= c1; h2 ^= k2;',
@@ -190,7 +190,7 @@ def murmur128(src):
         'h1 ^= nbytes; h2 ^= nbytes; h1 += h2; h2 += h1;',
         'h1 ^= h1 >> ', R('a1'), '; h1 *= ', ('am1', NUM), '; h1 ^= h1 >> ', R('a2'), '; h1 *= ', ('am2', NUM), '; h1 ^= h1 >> ', R('a3'), ';',
         'h2 ^= h2 >> ', R('b1'), '; h2 *= ', ('bm1', NUM), '; h2 ^= h2 >> ', R('b2'), '; h2 *= ', ('bm2', NUM), '; h2 ^= h2 >> ', R('b3'), ';',
-        'h1 += h2; h2 += h1; ((uint64_t *) retbuf)[0] = h1; ((uint64_t *) retbuf)[1] = h2; return true;'], 'qhashmurmur3_128 (finalisation)').groupdict()
+        'h1 += h2; h2 += h1; memcpy(retbuf, &h1, sizeof(h1)); memcpy((uint8_t *) retbuf + 8, &h2, sizeof(h2)); return true;'], 'qhashmurmur3_128 (finalisation)').groupdict()
     if (f['a1'], f['am1'], f['a2'], f['am2'], f['a3']) != (f['b1'], f['bm1'], f['b2'], f['bm2'], f['b3']):
         die('qhashmurmur3_128: the two lanes use different finalisers')
     ev = arith
